@@ -28,6 +28,10 @@ struct Case {
     /// "file" | "dir" | "dangling_symlink"
     #[serde(default)]
     foreign: Vec<(String, String)>,
+    /// idem histories: run k goes through the other entry point (one output directory
+    /// shared by `cargo tauri-typegen generate` and the build script)
+    #[serde(default)]
+    other_entry: Vec<bool>,
     cfg: Cfg,
     setup: Setup,
     /// idem: run 0 generates, the rest repeat. force: run 0 prepares, run 1 is judged
@@ -103,8 +107,13 @@ impl Check for C14 {
     }
     fn gen(&self, seed: u64, i: u64, _tier: Tier) -> Value {
         let r = Rng::new(crate::harness::case_seed(seed, "C14", i));
-        let setups = Setup::all_basic();
-        let setup = setups[(i % setups.len() as u64) as usize].clone();
+        let setups = Setup::all_extended();
+        let mut setup = setups[(i % setups.len() as u64) as usize].clone();
+        {
+            let mut sr = r.split("spelling");
+            setup.proj_style = *sr.pick(&[0u8, 0, 0, 1, 2, 3]);
+            setup.out_style = *sr.pick(&[crate::world::OutStyle::Plain, crate::world::OutStyle::Plain, crate::world::OutStyle::TrailingSlash, crate::world::OutStyle::DotDot, crate::world::OutStyle::Absolute, crate::world::OutStyle::NoDotSlash]);
+        }
         let mut gp = GenParams::swarm(&mut r.split("params"));
         // the quantifier names 1..6 source files: stratify
         gp.n_files = 1 + ((i / setups.len() as u64) % 6) as usize;
@@ -163,6 +172,13 @@ impl Check for C14 {
         let n = if force_kind { 3 } else { pr.range(3, 6) };
         let procs: Vec<ProcSpec> = (0..n).map(|_| gen_proc(&mut pr)).collect();
         let verbose: Vec<bool> = (0..n).map(|_| pr.chance(1, 5)).collect();
+        let shared_layout = matches!(
+            (setup.cwd, setup.conf),
+            (crate::world::Cwd::SrcTauri, ConfSrc::Tauri) | (crate::world::Cwd::SrcTauri, ConfSrc::Standalone) | (crate::world::Cwd::App, ConfSrc::Standalone)
+        ) && cfg.file_mode.is_none()
+            && !cfg.flag_visualize
+            && cfg.file_out.is_none();
+        let other_entry: Vec<bool> = (0..n).map(|k| k > 0 && !force_kind && shared_layout && (i / 11) % 3 == 0 && pr.chance(1, 2)).collect();
         let mut fr = r.split("force");
         let cache_state = CACHE_STATES[((i / 3) % CACHE_STATES.len() as u64) as usize].to_string();
         let (force_flag, force_cfg) = match fr.below(5) {
@@ -185,6 +201,7 @@ impl Check for C14 {
             prelude,
             flags,
             foreign,
+            other_entry,
             cfg,
             setup,
             procs,
@@ -259,7 +276,12 @@ impl Check for C14 {
             let mut hits = 0;
             for k in 1..c.procs.len() {
                 let before_files = scen::out_files(&w, &c.setup);
-                let r = scen::run_tool(env, &w, &c.setup, &c.cfg, c.procs[k].clone(), false, c.verbose[k]);
+                let mut setup_k = c.setup.clone();
+                if c.other_entry.get(k).copied().unwrap_or(false) {
+                    setup_k.entry = if setup_k.entry == Entry::Cli { Entry::Build } else { Entry::Cli };
+                    co.count("repeat_runs_through_the_other_entry_point", 1);
+                }
+                let r = scen::run_tool(env, &w, &setup_k, &c.cfg, c.procs[k].clone(), false, c.verbose[k] && setup_k.entry == Entry::Cli);
                 co.count("processes", 1);
                 co.count("repeat_runs", 1);
                 let after_files = scen::out_files(&w, &c.setup);
